@@ -47,6 +47,129 @@ def fails(r, plan):
     return one(r, plan)[0] == "diff"
 
 
+def drive_closure(which, count, h):
+    """ops.take (which == 0) / ops.skip applied once to a probe source; h: (-1, _) = subscribe, (j, i) = the source
+    delivers i to subscription j.  Returns the flat encoding of Ops/ClosureSkip.v run_prog and how many deliveries
+    were made to a subscription that had already completed."""
+    from reactivex import Observable, operators as ops
+    from reactivex.disposable import Disposable
+    observers, log = [], []
+
+    def subscribe(observer, scheduler=None):
+        observers.append(observer)
+        return Disposable()
+    obs = (ops.take if which == 0 else ops.skip)(count)(Observable(subscribe))
+    enc, nsub, done, fed_after = [], 0, set(), 0
+    for (j, i) in h:
+        if j < 0:
+            j = nsub
+            obs.subscribe(on_next=lambda v, j=j: log.append((j, v + 1)),
+                          on_completed=lambda j=j: log.append((j, 0)),
+                          on_error=lambda e, j=j: log.append((j, -7)))
+            nsub += 1
+            if log or len(observers) != nsub:
+                enc.append(-99)          # something was heard / no source subscription: not in the model
+                del log[:]
+        else:
+            if j in done:
+                fed_after += 1
+            observers[j].on_next(i)
+            heard = [c for (k, c) in log if k == j]
+            if len(heard) != len(log):
+                enc.append(-98)          # another subscriber heard something
+            if 0 in heard:
+                done.add(j)
+            enc.extend([j, i, len(heard)] + heard)
+            del log[:]
+    return enc, fed_after
+
+
+def resub_failure(enc):
+    """enc: the flat recording of drive_closure.  Returns (j1, j2, k) when subscriptions j1, j2 received the same
+    first k+1 inputs and heard different things on the k-th delivery (the operator is causal and its callbacks
+    deterministic, so that is a failure of C04 itself); None otherwise."""
+    per, p = {}, 0
+    while p < len(enc):
+        if enc[p] < 0:       # heard outside a delivery / by another subscriber: disagrees with the model (tie),
+            p += 1           # not by itself a failure of the property
+            continue
+        j, i, n = enc[p], enc[p + 1], enc[p + 2]
+        per.setdefault(j, []).append((i, tuple(enc[p + 3:p + 3 + n])))
+        p += 3 + n
+    js = sorted(per)
+    for a in js:
+        for b in js:
+            if a < b:
+                for k, (x, y) in enumerate(zip(per[a], per[b])):
+                    if x[0] != y[0]:
+                        break
+                    if x[1] != y[1]:
+                        return (a, b, k)
+    return None
+
+
+def closure_progs(chk, enlarge):
+    """Correspondence of the two concrete levelled programs (prog_take, prog_skip of Ops/ClosureCompose.v,
+    Ops/ClosureSkip.v) with reactivex.operators.take / skip: one operator value applied once to a probe source
+    that hands every subscription its own observer; a generated history of subscriptions (up to 4, overlapping)
+    and deliveries; what each subscriber hears during every single delivery, against trace_shared."""
+    rng = chk.rng
+    n = {"quick": 400, "thorough": 4000}[chk.tier] * (4 if enlarge else 1)
+    gal, meta, dist = [], [], {"take": 0, "skip": 0, "subs": {}, "events": 0, "completed_then_fed": 0}
+    for _ in range(n):
+        which = rng.randrange(2)
+        count = rng.randint(1, 4) if which == 0 else rng.randint(0, 4)
+        h, nsub, fed = [], 0, {}
+        aligned = rng.random() < 0.6      # every subscription is fed 0, 1, 2, ...: equal inputs, so the outputs
+        dist["aligned" if aligned else "random_values"] = dist.get("aligned" if aligned else "random_values", 0) + 1
+        for _step in range(rng.randint(1, 14)):                      # must be equal too (the property itself)
+            if nsub == 0 or (nsub < 4 and rng.random() < 0.25):
+                nsub += 1
+                h.append((-1, 0))
+            else:
+                j = rng.randrange(nsub)
+                fed[j] = fed.get(j, 0) + 1
+                h.append((j, fed[j] - 1 if aligned else
+                          rng.randint(0, 9) if rng.random() < 0.7 else rng.randint(0, 10 ** 6)))
+        enc, fed_after = drive_closure(which, count, h)
+        dist["completed_then_fed"] += fed_after
+        dist["take" if which == 0 else "skip"] += 1
+        dist["subs"][str(nsub)] = dist["subs"].get(str(nsub), 0) + 1
+        dist["events"] += len(h)
+        gal.append((f"({which}, {count}, " + lib.glist(h, lambda e: f"({lib.gz(e[0])}, {lib.gz(e[1])})") + ")",
+                    lib.glist(enc)))
+        meta.append({"operator": "take" if which == 0 else "skip", "count": count,
+                     "which": which, "history": [list(e) for e in h], "heard": enc})
+    bad, logs = lib.correspondence("C04", "closureprogs", "Base.Prelude Ops.ClosureSkip", "(Z * Z * list (Z * Z)) * list Z",
+                                   "run_prog", "list_eqb Z.eqb", gal, prelude="Open Scope Z_scope.\n", shard=500)
+    chk.cov["evaluations"] += len(gal)
+    chk.cov["closure_progs"] = {"cases": len(gal), "distribution": dist,
+                                "rule": "prog_take / prog_skip (Coq, trace_shared) vs ops.take / ops.skip applied once to "
+                                        "a probe source, 1-4 overlapping subscriptions, 1-14 events, deliveries after "
+                                        "completion included; per delivery: who heard what"}
+    # a failing input of the property itself: two subscriptions of the one observable that were fed the
+    # same inputs and heard different things (only that is a violation; a disagreement with the
+    # model alone breaks the tie); judged on every case, whether or not the model could be evaluated
+    failing = [m for m in meta if resub_failure(m["heard"]) is not None]
+    for m in sorted(failing, key=lambda m: len(m["history"]))[:1]:       # the shortest failing history
+        m = dict(m, differing_subscriptions=resub_failure(m["heard"]), n_failing_histories=len(failing))
+        chk.violation(f"closure_progs|{m['operator']}",
+                      {"family": "closure_progs", **m,
+                       "what": "ops.%s(%d) applied once; per delivery [subscriber, value, #heard, heard...] "
+                               "(0 = on_completed, v+1 = on_next v); the levelled program of the operator "
+                               "(re-subscription theorem C04_%s_resubscribe) says otherwise"
+                               % (m["operator"], m["count"], m["operator"]),
+                       }, size=1)
+    if bad:
+        idx = [i for i in bad if i >= 0][:3]
+        detail = {"n_disagreements": len(bad), "first_cases": [meta[i] for i in idx], "logs": logs[:1]}
+        if idx:
+            detail["model_says"] = lib.coq_show("C04", "Base.Prelude Ops.ClosureSkip", f"run_prog {gal[idx[0]][0]}",
+                                                "Open Scope Z_scope.\n")[-1500:]
+        chk.tie_broken("correspondence: Ops/ClosureCompose.v prog_take / Ops/ClosureSkip.v prog_skip vs "
+                       "reactivex.operators.take / skip", detail)
+
+
 def run(chk):
     proved = chk.build_and_prove()
     tv = ac.table_verdict(chk, "C04")
@@ -127,6 +250,7 @@ def run(chk):
     if hist["construct_errors"]:
         chk.tie_broken("differential harness: a recipe can no longer be constructed", hist["construct_errors"][:10])
     ac.tie_table_vs_differential(chk, tv, failing, cases + pipes, "C04")
+    closure_progs(chk, enlarge)
     if tv is not None:
         chk.cov["table"] = tv["stats"]
         chk.cov["traces_validated_against_impl"] = tv["stats"]["rows_checked_in_coq"]
@@ -167,6 +291,22 @@ def run(chk):
 
 def replay(chk, path):
     d = json.load(open(path))
+    if d.get("family") == "closure_progs":
+        h = [tuple(e) for e in d["history"]]
+        enc, _ = drive_closure(d["which"], d["count"], h)
+        g = f"({d['which']}, {d['count']}, " + lib.glist(h, lambda e: f"({lib.gz(e[0])}, {lib.gz(e[1])})") + ")"
+        out = lib.coq_show("C04", "Base.Prelude Ops.ClosureSkip", f"list_eqb Z.eqb (run_prog {g}) {lib.glist(enc)}",
+                           "Open Scope Z_scope.\n")
+        print("history ((-1, _) = subscribe, (j, i) = deliver i to subscription j):", h)
+        print("implementation heard (per delivery: subscriber, value, #heard, heard...):", enc)
+        print("model agrees:", "yes" if "= true" in out else "no" if "= false" in out else
+              "not evaluated (the Coq build is stale; run the check first)")
+        pair = resub_failure(enc)
+        print("subscriptions fed the same inputs that heard different things (j1, j2, delivery):", pair)
+        same = pair is None
+        if not same:
+            print(f"VIOLATION property=C04 replay={path}")
+        return 0 if same else 1
     if "case" not in d:
         print(json.dumps(d, indent=1)[:6000])
         return 1
